@@ -211,7 +211,10 @@ class DavSession:
             self._fault_fired = False
             return self._external(method, path, hdrs, body)
         if fault:
-            with fsmon.FaultInjector(self.world.root, fault) as fi:
+            # fault > 0: ENOSPC at the fault-th file-system mutation; fault < 0: the |fault|-th file
+            # opened for writing opens (and is truncated) but cannot be written to
+            with (fsmon.FaultInjector(self.world.root, fault) if fault > 0 else
+                  fsmon.WriteFaultInjector(self.world.root, -fault)) as fi:
                 resp = self.world.request(method, path, hdrs, body)
             self._fault_fired = fi.fired is not None
             self._fault_gate = ""
@@ -362,7 +365,7 @@ class DavSession:
         """Set (value: str) or remove (value None) one collection property."""
         return self.propupdate(c, [(p, value)])
 
-    def propupdate(self, c, ops, cdata=False, enc=None):
+    def propupdate(self, c, ops, cdata=False, enc=None, fault=0):
         """One PROPPATCH with the instructions ops = [(property, value or None = remove)] in this order.
         enc: the request body in another encoding / Content-Type spelling (gamma.reencode_xml)."""
         path = self.slots[c] + "/"
@@ -372,7 +375,7 @@ class DavSession:
             re_ = gamma.reencode_xml(body, enc)
             if re_ is not None:
                 body, ctype = re_
-        resp = self.world.request("PROPPATCH", path, [("Content-Type", ctype)], body)
+        resp = self._request("PROPPATCH", path, [("Content-Type", ctype)], body, fault)
         # per-property status decides whether the server reported success
         status = {}
         if resp.status == 207:
